@@ -8,9 +8,7 @@ import (
 
 func handlerOf(gw *protocol.Gateway) http.Handler { return http.HandlerFunc(gw.HandleGatewayProtocol) }
 
-func c10NtlmReplay(env *Env, rep *Report) {}
 func c10KdcReplay(env *Env, rep *Report)  {}
 func c10HTTPReplay(env *Env, rep *Report) {}
-func c10Ntlm(env *Env, rep *Report) int   { return 0 }
 func c10Kdc(env *Env, rep *Report) int    { return 0 }
 func c10HTTP(env *Env, rep *Report) int   { return 0 }
